@@ -478,7 +478,10 @@ func (c *Client) Disconnect(quit <-chan struct{}) error {
 		if writeErr != nil {
 			return fmt.Errorf("%w; DISCONNECT lost", errors.Join(ErrSubmit, writeErr))
 		}
-		return closeErr
+		if closeErr != nil {
+			return fmt.Errorf("%w; DISCONNECT send yet connection close failed", errors.Join(ErrSubmit, closeErr))
+		}
+		return nil
 	}
 }
 
